@@ -18,6 +18,21 @@ repairs of §8.5 had just added or changed. `run_seeds_list.sh` applies each to 
 runs the property's quick check, undoes it at once, and regenerates the evidence
 on the unchanged tree. Result of the last full run: **{summary}**.
 
+Two of the 201 are **retired**: C06-6 and C19-1 (both make `stripECS` remove only the first client-subnet
+option). They were confirmed against the tree they were written on, where an upstream's OPT with its own ECS was
+merged with the request's; item 70 (`cb4346b`) then made the writer reduce a response-supplied OPT to its Extended
+DNS Error options before the merge, and `SetEdns0` leaves at most one client-subnet option on the request OPT, so
+`stripECS` no longer receives two. Re-cut on the current tree the patches still apply, compile and pass the suite,
+but their demonstrations pass as well: the property holds with them. They stay on disk marked `retired` in
+`meta.json` and are not counted as detections. The check still reports them, as `stripECS#generate`: the loop contract (every
+option kept so far is not a client-subnet option) no longer binds to the rewritten body, so the postcondition "no
+`EDNS0_SUBNET` in the result" is not established. That is the one place known where a contract demands more of a
+helper than its only call site needs on this tree; it is kept because the postcondition is what the property asks
+of the function that is named for it, and a second caller, or a change to `onlyEDE`, would make it load-bearing
+again. Stating the precise
+precondition (at most one such option in the list) and proving it at the call site needs a counting argument over
+three appends that was not attempted.
+
 How the waves went, because it is the honest measure of the first contracts:
 wave 1 (75 changes) — 71 caught by the contracts as first written, the 4 misses
 fixed later; wave 2 (24, same eight properties, "pick different functions") —
